@@ -223,6 +223,15 @@ CALLS = [
     ("f(x, ...[y, z])", lambda x, y, z: [x, y, z, []]),
     ("f(...<<<'a' => x, 'c' => y>>>)", lambda x, y, z: [x, x + 10, y, []]),
     ("f(z, ...<<<'c' => y>>>)", lambda x, y, z: [z, z + 10, y, []]),
+    # spreads followed by named arguments (named first, the spread elements fill the remaining parameters in order)
+    ("f(...[x], c = z)", lambda x, y, z: [x, x + 10, z, []]),
+    ("f(...[x, y], c = z)", lambda x, y, z: [x, y, z, []]),
+    ("f(...[x, y, z], b = 1)", lambda x, y, z: [x, 1, y, [z]]),
+    ("f(...[], a = x, c = y)", lambda x, y, z: [x, x + 10, y, []]),
+    ("f(x, ...[y], c = z)", lambda x, y, z: [x, y, z, []]),
+    ("f(...[x], ...[y], c = z)", lambda x, y, z: [x, y, z, []]),
+    ("x !> f(...[y], c = z)", lambda x, y, z: [x, y, z, []]),
+    ("def o = <*m = fn(self, p, q = 0) [p, q]*>; o->m(...[x], q = y)", lambda x, y, z: [x, y]),
     ("x !> f()", lambda x, y, z: [x, x + 10, 7, []]),
     ("x !> f(y)", lambda x, y, z: [x, y, 7, []]),
     ("x !> f(c = z)", lambda x, y, z: [x, x + 10, z, []]),
